@@ -359,7 +359,7 @@ Proof.
     destruct incb, brk; try discriminate.
     assert (Hn0 : n0 = length (tbl_live (tr_snap (st_task s t)))).
     { destruct I as [It _ _]. specialize (It t). unfold tinv, phase_of in It. rewrite Ep in It. exact It. }
-    unfold iter_table in H. rewrite Hne2 in H. rewrite <- Hn0, Nat.eqb_refl in H. cbn [negb] in H.
+    unfold loop_fails, iter_table in H. rewrite Hne2 in H. cbn [andb] in H. rewrite orb_false_r in H. rewrite <- Hn0, Nat.eqb_refl in H. cbn [negb] in H.
     destruct (tbl_next cur (tr_snap (st_task s t))) as [[cur' [j a]]|]; [|discriminate].
     inversion H; subst; clear H. apply invA_log. apply invA_set_task_keep; [assumption|].
     unfold phase_of. rewrite Ep. cbn. auto.
@@ -483,7 +483,7 @@ Proof.
       (destruct (Hgo _ eq_refl) as [Hg|Hg]; [left; exact Hg|right; left; exact Hg]).
   - destruct (tr_phase (st_task s t)) as [| | |cur n0 incb brk|] eqn:Ep; try discriminate.
     destruct incb, brk; try discriminate.
-    destruct (negb (length (tbl_live (iter_table cfg s t)) =? n0)%nat).
+    destruct (loop_fails cfg s t cur n0).
     + inversion H; subst; clear H. destruct (N.eq_dec x t) as [->|Hne]; [right; left|left]; unfold escape, phase_of; cbn.
       * rewrite Ep, upd_same. repeat split; try discriminate. left; reflexivity.
       * rewrite upd_other by assumption; reflexivity.
@@ -565,7 +565,7 @@ Proof.
   - destruct (tr_phase (st_task s t)); try discriminate.
     destruct o; destruct (tr_creq (st_task s t)); try discriminate; inversion H; subst; left; reflexivity.
   - destruct (tr_phase (st_task s t)) as [| | |cur n0 incb brk|]; try discriminate. destruct incb, brk; try discriminate.
-    destruct (negb (length (tbl_live (iter_table cfg s t)) =? n0)%nat); [inversion H; subst; left; reflexivity|].
+    destruct (loop_fails cfg s t cur n0); [inversion H; subst; left; reflexivity|].
     destruct (tbl_next cur (iter_table cfg s t)) as [[cur' [j a]]|]; [|discriminate]. inversion H; subst; left; reflexivity.
   - destruct (tr_phase (st_task s t)) as [| | |cur n0 incb brk|]; try discriminate. destruct incb, brk; try discriminate.
     destruct res; destruct (tr_creq (st_task s t)); try discriminate; try destruct (d_fin_cancel_escapes cfg);
@@ -642,6 +642,7 @@ Proof.
     split; intros _; repeat match goal with |- context [match ?e with _ => _ end] => destruct e end; discriminate.
   - destruct (tr_phase (st_task s2 r)); try tauto. destruct o; destruct (tr_creq (st_task s2 r)); split; intros; congruence.
   - destruct (tr_phase (st_task s2 r)) as [| | |cur n0 incb brk|]; try tauto. destruct incb, brk; try tauto.
+    unfold loop_fails, iter_table. rewrite Hl, He. cbn [andb]. rewrite !orb_false_r.
     destruct (negb (length (tbl_live (tr_snap (st_task s2 r))) =? n0)%nat); [split; intros; discriminate|].
     destruct (tbl_next cur (tr_snap (st_task s2 r))) as [[c' [j a]]|]; split; intros; congruence.
   - destruct (tr_phase (st_task s2 r)) as [| | |cur n0 incb brk|]; try tauto. destruct incb, brk; try tauto.
@@ -704,7 +705,7 @@ Proof.
   - destruct (tr_phase (st_task s t)); try discriminate.
     destruct o; destruct (tr_creq (st_task s t)); try discriminate; inversion H; subst; left; exact Hin.
   - destruct (tr_phase (st_task s t)) as [| | |cur n0 incb brk|]; try discriminate. destruct incb, brk; try discriminate.
-    destruct (negb (length (tbl_live (iter_table cfg s t)) =? n0)%nat); [inversion H; subst; left; exact Hin|].
+    destruct (loop_fails cfg s t cur n0); [inversion H; subst; left; exact Hin|].
     destruct (tbl_next cur (iter_table cfg s t)) as [[cur' [j a]]|]; [|discriminate]. inversion H; subst; left; exact Hin.
   - destruct (tr_phase (st_task s t)) as [| | |cur n0 incb brk|]; try discriminate. destruct incb, brk; try discriminate.
     destruct res; destruct (tr_creq (st_task s t)); try discriminate; try destruct (d_fin_cancel_escapes cfg);
@@ -1001,7 +1002,7 @@ Proof.
     destruct incb, brk; try discriminate.
     assert (Hn0 : n0 = length (tbl_live (tr_snap (st_task s t)))).
     { destruct IA as [It _ _]. specialize (It t). unfold tinv, phase_of in It. rewrite Ep in It. exact It. }
-    unfold iter_table in H. rewrite Hne2 in H. rewrite <- Hn0, Nat.eqb_refl in H. cbn [negb] in H.
+    unfold loop_fails, iter_table in H. rewrite Hne2 in H. cbn [andb] in H. rewrite orb_false_r in H. rewrite <- Hn0, Nat.eqb_refl in H. cbn [negb] in H.
     destruct (tbl_next cur (tr_snap (st_task s t))) as [[cur' [j a]]|] eqn:En; [|discriminate].
     inversion H; subst; clear H. destruct I as [B1 B2 B3]. constructor.
     + intros t0. unfold binv, phase_of. rewrite calls_add_log. cbn [fst snd st_task add_log set_task].
@@ -1183,7 +1184,7 @@ Proof.
   - destruct (tr_phase (st_task s t)) eqn:Ep; try discriminate.
     destruct o; destruct (tr_creq (st_task s t)); try discriminate; inversion H; subst; clear H; rfin R t0 t.
   - destruct (tr_phase (st_task s t)) as [| | |cur n0 incb brk|] eqn:Ep; try discriminate. destruct incb, brk; try discriminate.
-    destruct (negb (length (tbl_live (iter_table cfg s t)) =? n0)%nat); [inversion H; subst; clear H; rfin R t0 t|].
+    destruct (loop_fails cfg s t cur n0); [inversion H; subst; clear H; rfin R t0 t|].
     destruct (tbl_next cur (iter_table cfg s t)) as [[cur' [j a]]|]; [|discriminate]. inversion H; subst; clear H. rfin R t0 t.
   - destruct (tr_phase (st_task s t)) as [| | |cur n0 incb brk|] eqn:Ep; try discriminate. destruct incb, brk; try discriminate.
     destruct res; destruct (tr_creq (st_task s t)); try discriminate; try destruct (d_fin_cancel_escapes cfg);
@@ -1262,7 +1263,7 @@ Proof.
     + unfold s2, s1. cbn. rewrite !upd_same. cbn. lia.
     + exists (LCbBegin t :: LCbEnd t CbOk :: ls), s'. split; [|split; [|exact Hd]].
       * intros l [<-|[<-|Hi]]; [reflexivity|reflexivity|apply Hown; exact Hi].
-      * rewrite run_from_cons. cbn [step]. unfold iter_table. rewrite Ep, Hl, Esz, En. fold s1.
+      * rewrite run_from_cons. cbn [step]. unfold loop_fails, iter_table. rewrite Ep, Hl. cbn [andb]. rewrite orb_false_r, Esz, En. fold s1.
         rewrite run_from_cons. cbn [step]. unfold s1 at 1 2. cbn [st_task add_log set_task]. rewrite upd_same.
         cbn [tr_phase set_phase tr_creq]. rewrite Hc. exact Hrun.
 Qed.
